@@ -480,3 +480,59 @@ def run_rename_relevance(prog, tier, repo):
             res.violation(f'rewrite:{g.name}', g.loc(), f'{g.name} rewrites variable occurrences without a range test and nobody calling it could be checked')
     res.floor('functions rewriting variable occurrences', n, 1)
     return [res]
+
+
+# ---------------------------------------------------------------------------------------------------------------------
+# SEARCH-NO-EARLY-NONE (C15): the cover search (`location_cover::search_*`) answers "which name is under the cursor" by
+# descending through the children of each node; `None` means "nothing under the cursor in this subtree". Propagating the
+# absence of an unrelated optional value with `?` (`receiver_type.as_nominal()?`) returns that answer before the remaining
+# children were searched: occurrences inside them (the receiver of a method call on a value of type-parameter type) are then
+# invisible to go-to-definition, find-references and rename. Rule: in the search functions a `?` may only propagate the result
+# of another search function.
+
+def run_search_no_early_none(prog, tier, repo):
+    from ..dataflow import root_local
+    from ..cfg import single_def
+    res = RuleResult('SEARCH-NO-EARLY-NONE', 'C15: the cursor search never reports "nothing here" because an unrelated optional value is '
+                     'absent (`?` on anything but a child search result) - the children not yet searched would be skipped')
+    search = {b.id: b for b in prog.bodies.values()
+              if b.name.startswith('samlang_services::location_cover::') and '::tests' not in b.name
+              and 'LocationCoverSearchResult' in b.locals[0].s and 'Option' in b.locals[0].s}
+    if len(search) < 3:
+        res.cannot_decide('search functions of samlang_services::location_cover returning Option<LocationCoverSearchResult>')
+        return [res]
+    n_ctrl = 0
+    for b in prog.bodies.values():
+        if b.crate == 'samlang_services' and '::tests' not in b.name and b.id not in search:
+            n_ctrl += sum(1 for bl in b.blocks if not bl.cleanup and bl.term[0] == 'call'
+                          and 'from_residual' in (callee(bl.term)[1] or ''))
+    n = 0
+    for b in sorted(search.values(), key=lambda x: x.name):
+        bad = []
+        for bl in b.blocks:
+            t = bl.term
+            if bl.cleanup or t[0] != 'call' or not (callee(t)[1] or '').endswith('::branch') or 'Try' not in (callee(t)[1] or ''):
+                continue
+            n += 1
+            # the operand of `?`: where does it come from?
+            src = None
+            if t[3] and t[3][0][0] in ('c', 'm'):
+                r, _ = root_local(b, t[3][0][1].local)
+                sd = single_def(b, r) if r is not None else None
+                if sd and sd[1] == 'term':
+                    src = callee(sd[2])
+            if src and src[0] in search:
+                continue
+            bad.append((t[7], (src[1] if src and src[1] else 'a local value')))
+        key = f'search:{b.name}'
+        if bad:
+            res.violation(key, b.loc(bad[0][0]), f'{b.name} propagates the absence of `{bad[0][1].split("::")[-1]}` with `?`: the search '
+                          f'answers "nothing under the cursor" for the whole node although its remaining children were not searched, '
+                          f'so names inside them have no definition, no references and cannot be renamed')
+        else:
+            res.ok(key, b.loc(), 'no `?` except on child search results')
+    res.floor('cursor search functions', len(search), 8)
+    # positive control: the matcher recognises `?` where the crate uses it (query / completion entry points)
+    res.floor('`?` sites recognised elsewhere in the services crate (positive control)', n_ctrl, 10)
+    res.analysed['`?` sites inside search functions'] = n
+    return [res]
